@@ -5,6 +5,7 @@ that the theorems about them are re-checked against what the code says *now*.  A
 a constant (source restructured) raises and is treated by check.py as a broken tie.
 """
 import ast
+import json
 import os
 
 import core
@@ -99,12 +100,40 @@ def lean_strs(xs):
     return "[" + ", ".join(lean_str(x) for x in xs) + "]"
 
 
-def collect(repo):
-    c = {}
+def _const_table(tree):
+    """module-level and class-level `NAME = (<string constants>)` assignments: name -> list of strings"""
+    out = {}
+    for n in ast.walk(tree):
+        if isinstance(n, ast.Assign) and isinstance(n.value, (ast.Tuple, ast.List)) and n.value.elts and all(
+                isinstance(e, ast.Constant) and isinstance(e.value, str) for e in n.value.elts):
+            for t in n.targets:
+                if isinstance(t, ast.Name):
+                    out[t.id] = [e.value for e in n.value.elts]
+    return out
+
+
+def _membership_lists(tree, fn):
+    """string tuples a function tests membership in: inline `x in ("a", "b")` / `x not in (...)`, or through a
+    module-/class-level constant (`x in _NAMES`, `x in cls._NAMES`)"""
+    table = _const_table(tree)
+    out = []
+    for n in ast.walk(fn):
+        if isinstance(n, ast.Compare) and any(isinstance(o, (ast.In, ast.NotIn)) for o in n.ops):
+            for c in n.comparators:
+                if isinstance(c, (ast.Tuple, ast.List)) and c.elts and all(
+                        isinstance(e, ast.Constant) and isinstance(e.value, str) for e in c.elts):
+                    out.append([e.value for e in c.elts])
+                elif isinstance(c, ast.Name) and c.id in table:
+                    out.append(table[c.id])
+                elif isinstance(c, ast.Attribute) and c.attr in table:
+                    out.append(table[c.attr])
+    return out
+
+
+def _g_render(repo, c):
     render = _parse(repo, "anytree/render.py")
     c["styles"] = [(n,) + _style_args(render, n) for n in ("AsciiStyle", "ContStyle", "ContRoundStyle", "DoubleStyle")]
     rt_init = _func(_cls(render, "RenderTree"), "__init__")
-    # default style of RenderTree: `style=ContStyle()`
     dstyle = None
     for a, d in zip(rt_init.args.args[len(rt_init.args.args) - len(rt_init.args.defaults):], rt_init.args.defaults):
         if a.arg == "style" and isinstance(d, ast.Call) and isinstance(d.func, ast.Name):
@@ -112,23 +141,40 @@ def collect(repo):
     if dstyle is None:
         raise LookupError("RenderTree default style")
     c["default_style"] = dstyle
+
+
+def _g_resolver(repo, c):
     resolver = _parse(repo, "anytree/resolver.py")
     mc = _assign_const(resolver, "_MAXCACHE")
     if not (isinstance(mc, ast.Constant) and isinstance(mc.value, int)):
         raise LookupError("_MAXCACHE is not an int constant")
     c["maxcache"] = mc.value
+
+
+def _returned_const(fn):
+    vals = [n.value.value for n in ast.walk(fn) if isinstance(n, ast.Return) and isinstance(n.value, ast.Constant)]
+    if len(vals) != 1:
+        raise LookupError("%s: expected one constant return" % fn.name)
+    return vals[0]
+
+
+def _g_dot(repo, c):
     dot = _parse(repo, "anytree/exporter/dotexporter.py")
-    mer = _parse(repo, "anytree/exporter/mermaidexporter.py")
     c["dot_esc"] = _re_compile_pattern(dot, "_RE_ESC")
-    c["mermaid_esc"] = _re_compile_pattern(mer, "_RE_ESC")
     dd = _defaults(_func(_cls(dot, "DotExporter"), "__init__"))
     c["dot_graph"], c["dot_name"], c["dot_indent"] = dd["graph"], dd["name"], dd["indent"]
-    et = _func(_cls(dot, "DotExporter"), "_default_edgetypefunc")
-    c["dot_edgetype"] = [n.value.value for n in ast.walk(et) if isinstance(n, ast.Return)][0]
+    c["dot_edgetype"] = _returned_const(_func(_cls(dot, "DotExporter"), "_default_edgetypefunc"))
+
+
+def _g_mermaid(repo, c):
+    mer = _parse(repo, "anytree/exporter/mermaidexporter.py")
+    c["mermaid_esc"] = _re_compile_pattern(mer, "_RE_ESC")
     md = _defaults(_func(_cls(mer, "MermaidExporter"), "__init__"))
     c["mermaid_graph"], c["mermaid_name"], c["mermaid_indent"] = md["graph"], md["name"], md["indent"]
-    ef = _func(_cls(mer, "MermaidExporter"), "_default_edgefunc")
-    c["mermaid_edge"] = [n.value.value for n in ast.walk(ef) if isinstance(n, ast.Return)][0]
+    c["mermaid_edge"] = _returned_const(_func(_cls(mer, "MermaidExporter"), "_default_edgefunc"))
+
+
+def _g_separator(repo, c):
     nm = _parse(repo, "anytree/node/nodemixin.py")
     sep = None
     for n in _cls(nm, "NodeMixin").body:
@@ -137,31 +183,87 @@ def collect(repo):
     if sep is None:
         raise LookupError("NodeMixin.separator")
     c["separator"] = sep
+
+
+def _g_dict(repo, c):
     de = _parse(repo, "anytree/exporter/dictexporter.py")
-    tl = _str_tuples_in(_func(_cls(de, "DictExporter"), "_iter_attr_values"))
+    tl = _membership_lists(de, _func(_cls(de, "DictExporter"), "_iter_attr_values"))
     if not tl:
         raise LookupError("DictExporter._iter_attr_values: skipped names")
     c["dict_skipped"] = tl[0]
+
+
+def _g_symlink(repo, c):
     sl = _parse(repo, "anytree/node/symlinknodemixin.py")
-    g = _str_tuples_in(_func(_cls(sl, "SymlinkNodeMixin"), "__getattr__"))
-    s = _str_tuples_in(_func(_cls(sl, "SymlinkNodeMixin"), "__setattr__"))
+    gfn = _func(_cls(sl, "SymlinkNodeMixin"), "__getattr__")
+    g = _membership_lists(sl, gfn)
+    s = _membership_lists(sl, _func(_cls(sl, "SymlinkNodeMixin"), "__setattr__"))
     if not g or not s:
         raise LookupError("SymlinkNodeMixin local names")
     c["symlink_getattr_local"] = g[0]
     c["symlink_setattr_local"] = s[0]
-    gfn = _func(_cls(sl, "SymlinkNodeMixin"), "__getattr__")
     guarded = []
     for n in ast.walk(gfn):
         if isinstance(n, ast.Compare) and isinstance(n.ops[0], ast.Eq) and isinstance(n.comparators[0], ast.Constant):
             guarded.append(n.comparators[0].value)
     c["symlink_getattr_guarded"] = guarded
+
+
+def _g_search(repo, c):
     se = _parse(repo, "anytree/search.py")
-    msgs = [n.value.value for n in ast.walk(_func(se, "_findall"))
-            if isinstance(n, ast.Assign) and isinstance(n.value, ast.Constant) and isinstance(n.value.value, str)]
+    msgs = []
+    for n in ast.walk(se):
+        if isinstance(n, ast.Constant) and isinstance(n.value, str) and n.value.startswith("Expecting") and "%d" in n.value:
+            if n.value not in msgs:
+                msgs.append(n.value)
     if len(msgs) != 2:
         raise LookupError("CountError templates")
     c["count_msgs"] = msgs
-    return c
+
+
+# constant group -> (extractor, properties whose model or theorems read the group)
+GROUPS = {
+    "render": (_g_render, ["C09"]),
+    "resolver": (_g_resolver, ["C08"]),
+    "dot": (_g_dot, ["C12"]),
+    "mermaid": (_g_mermaid, ["C13"]),
+    "separator": (_g_separator, ["C07", "C08", "C09"]),
+    "dict": (_g_dict, ["C10", "C11"]),
+    "symlink": (_g_symlink, ["C19", "C20"]),
+    "search": (_g_search, ["C14"]),
+}
+BASELINE = os.path.join(os.path.dirname(os.path.abspath(__file__)), "extract_baseline.json")
+
+
+def collect(repo):
+    """returns (constants, failures): every group is extracted on its own; a group whose source was restructured
+    beyond what the extractor understands falls back to the recorded baseline values (so that the rest still
+    builds) and is reported as a broken tie - to the properties that read it only"""
+    c, failures = {}, {}
+    base = None
+    for g, (fn, _props) in GROUPS.items():
+        part = {}
+        try:
+            fn(repo, part)
+        except Exception as e:      # noqa: BLE001 - any surprise in the source is a broken tie of this group
+            failures[g] = "%s: %s" % (type(e).__name__, e)
+            if base is None:
+                base = json.load(open(BASELINE, encoding="utf-8"))
+            part = base[g]
+            if g == "render":
+                part = dict(part, styles=[tuple(x) for x in part["styles"]])
+        c.update(part)
+    return c, failures
+
+
+def write_baseline(repo):
+    out = {}
+    for g, (fn, _props) in GROUPS.items():
+        part = {}
+        fn(repo, part)
+        out[g] = part
+    with open(BASELINE, "w", encoding="utf-8") as f:
+        json.dump(out, f, indent=1, ensure_ascii=False, sort_keys=True)
 
 
 def render(c):
@@ -197,17 +299,20 @@ def render(c):
 
 
 def regenerate(repo):
-    """returns True when the file content changed"""
-    text = render(collect(repo))
+    """returns (changed, failures): whether Generated.lean was rewritten, and the groups that could not be extracted"""
+    consts, failures = collect(repo)
+    text = render(consts)
     with core.BuildLock():
         old = open(OUT, encoding="utf-8").read() if os.path.exists(OUT) else None
         if old != text:
             with open(OUT, "w", encoding="utf-8") as f:
                 f.write(text)
-            return True
-    return False
+            return True, failures
+    return False, failures
 
 
 if __name__ == "__main__":
     import sys
+    if len(sys.argv) > 2 and sys.argv[2] == "--write-baseline":
+        write_baseline(sys.argv[1])
     print(regenerate(sys.argv[1] if len(sys.argv) > 1 else "/repo"))
